@@ -1,8 +1,134 @@
 import Flatland.JsonUtil
+import Flatland.C20
+import Flatland.Run.C04
 open Lean Flatland.J
 namespace Flatland.Run.C20
+open Flatland.C20
 
-/-- JSON case in, JSON observation out (stub until the model of C20 is written). -/
-def run (_j : Json) : Except String Json := .error "model runner for C20 not implemented yet"
+/-! JSON glue for C20.  Values are the native universe of the scalar model (C04) and members are
+scalar kinds of that model; the C20 model itself is generic in both. -/
+
+abbrev NV := Flatland.Scalar.Native
+
+def plainEnv : Flatland.Scalar.Env := ⟨Flatland.Generated.C04.pyTables, fun _ _ => some none⟩
+
+/-- kinds are written as C04 kind objects, or with the short names of the first cases -/
+def parseKindC20 (j : Json) : Except String Flatland.Scalar.Kind :=
+  match j with
+  | .str "str" => pure (.string true)
+  | .str "strns" => pure (.string false)
+  | .str "int" => pure (.integer true 0)
+  | o => Flatland.Run.C04.parseKind o
+
+/-- `.value` after `member.set(x)` -/
+def setValue (k : Flatland.Scalar.Kind) (x : NV) : NV :=
+  match Flatland.Scalar.setScalar plainEnv k x with
+  | .ok r => r.st.value
+  | .error _ => .none
+
+def parseNV (j : Json) : Except String NV := do
+  if isNull j then return .none
+  if let .ok _ := fld j "t" then return (← Flatland.Run.C04.parseNative j)
+  if let .ok s := fld j "s" then return .str (← chars s)
+  if let .ok i := fld j "i" then return .int (← int i)
+  if let .ok b := fld j "b" then return .bool (← bool b)
+  throw "bad native"
+
+def ofNV (v : NV) : Json := Flatland.Run.C04.ofNative v
+
+def asciiUpper (s : List Char) : List Char :=
+  s.map fun c => if 'a' ≤ c && c ≤ 'z' then Char.ofNat (c.toNat - 32) else c
+
+def parseKey (j : Json) : Except String (Option (List Char → List Char)) := do
+  if isNull j then return none
+  match (← sfld j "fn") with
+  | "ident" => return some id
+  | "upper" => return some asciiUpper
+  | "add" => let p ← cfld j "p"; return some (fun k => p ++ k)
+  | "strip" =>
+    let p ← cfld j "p"
+    return some (fun k => if p.isPrefixOf k then k.drop p.length else k)
+  | "const" => let c ← cfld j "c"; return some (fun _ => c)
+  | "rev" => return some List.reverse
+  | s => throw s!"bad key fn {s}"
+
+def parseStrs (j : Json) : Except String (List (List Char)) :=
+  if isNull j then pure [] else listOf chars j
+
+def parseRename (j : Json) : Except String (List (List Char × List Char)) := do
+  if isNull j then return []
+  (← afld j "pairs").mapM fun p => do
+    match (← arr p) with
+    | [a, b] => return (← chars a, ← chars b)
+    | _ => throw "bad rename pair"
+
+def parseArgs (j : Json) : Except String Args := do
+  return { inc := ← parseStrs (fldD j "include" Json.null),
+           om := ← parseStrs (fldD j "omit" Json.null),
+           ren := ← parseRename (fldD j "rename" Json.null),
+           key := ← parseKey (fldD j "key" Json.null) }
+
+def parsePolicy (j : Json) : Except String Policy := do
+  match (← sfld j "policy") with
+  | "subset" => pure .subset | "strict" => pure .strict | "duck" => pure .duck
+  | s => throw s!"bad policy {s}"
+
+def parseObj (j : Json) : Except String (Obj NV) := do
+  (← arr j).mapM fun a => do
+    let name ← cfld a "name"
+    if (← bfld a "present") then return (name, some (← parseNV (← fld a "value")))
+    else return (name, Option.none)
+
+def excJson : Option Err → Json
+  | Option.none => Json.null
+  | some .typeError => Json.str "TypeError"
+
+def pairsJson (l : List (List Char × NV)) : Json :=
+  ofList (fun p => Json.arr #[ofChars p.1, ofNV p.2]) l
+
+def objJson (o : Obj NV) : Json :=
+  let present := o.filterMap fun p => p.2.map (p.1, ·)
+  pairsJson (sortByKey present)
+
+def run (j : Json) : Except String Json := do
+  let fieldsJ ← afld j "fields"
+  let kinds ← fieldsJ.mapM fun f => do return (← cfld f "name", ← parseKindC20 (← fld f "kind"))
+  let kindOf (n : List Char) : Flatland.Scalar.Kind := ((kinds.find? (·.1 == n)).map (·.2)).getD (.string true)
+  let sparse := match j.getObjVal? "sparse" with | .ok (.bool b) => b | _ => false
+  let S : Schema NV := { fields := kinds.map (·.1), blank := .none,
+                         setF := fun n x => setValue (kindOf n) x, policy := ← parsePolicy j, sparse := sparse }
+  -- the element's state: every member has been `set()` with the case's raw value
+  let presentJ ← fieldsJ.filterM fun f => do
+    if !sparse then return true
+    match f.getObjVal? "present" with | .ok (.bool b) => return b | _ => return true
+  let e : Elem NV ← presentJ.mapM fun f => do
+    let n ← cfld f "name"
+    return (n, S.setF n (← parseNV (← fld f "value")))
+  let a ← parseArgs j
+  let o ← parseObj (fldD j "obj" (Json.arr #[]))
+  match (← sfld j "op") with
+  | "slice" =>
+    match slice e a with
+    | .error x => return obj [("exc", excJson (some x)), ("result", Json.null)]
+    | .ok d => return obj [("exc", Json.null), ("result", pairsJson (sortByKey d))]
+  | "update" =>
+    match updateObject e o a with
+    | .error x => return obj [("exc", excJson (some x)), ("obj", objJson o)]
+    | .ok o' => return obj [("exc", Json.null), ("obj", objJson o')]
+  | "setby" =>
+    let r := setByObject S e o a
+    return obj [("exc", excJson r.exc), ("reads", ofList ofChars r.reads), ("value", pairsJson r.elem)]
+  | "roundtrip" =>
+    -- update_object(obj, **args) then a fresh element .set_by_object(obj, **args2)
+    let a2 ← parseArgs (← fld j "args2")
+    match updateObject e o a with
+    | .error x => return obj [("exc", excJson (some x)), ("obj", objJson o), ("reads", Json.null),
+                              ("value", Json.null)]
+    | .ok o' =>
+      let blank : Elem NV := if sparse then [] else S.fields.map (·, S.blank)
+      let r := setByObject S blank o' a2
+      return obj [("exc", excJson r.exc), ("obj", objJson o'), ("reads", ofList ofChars r.reads),
+                  ("value", pairsJson r.elem)]
+  | s => throw s!"bad op {s}"
 
 end Flatland.Run.C20
